@@ -288,7 +288,7 @@ func genValue(t *rapid.T, depth int) val {
 	case 4:
 		return vDouble(rapid.Float64().Draw(t, "double"))
 	case 5:
-		return vString(rapid.OneOf(rapid.StringN(0, 6, -1), rapid.StringMatching(`-?[0-9]{1,4}(\.[0-9]{1,3})?`), rapid.SampledFrom([]string{"true", "false", "TRUE", "1e2", "NaN", "Inf", " 1", "0x10"})).Draw(t, "string"))
+		return vString(rapid.OneOf(rapid.StringN(0, 6, -1), rapid.StringMatching(`-?[0-9]{1,4}(\.[0-9]{1,3})?`), rapid.SampledFrom([]string{"true", "false", "TRUE", "1e2", "NaN", "Inf", " 1", "0x10", "Ａ", "😀", "\uffff", "\ue000", "𝑥", "aＡ", "a😀"})).Draw(t, "string"))
 	case 6:
 		return vBool(rapid.Bool().Draw(t, "bool"))
 	case 7:
